@@ -11,11 +11,13 @@ search     : the harness's direct oracle (sum of frame_time vs duration / order 
 """
 import os
 import shutil
+import random
 import struct
 import sys
 import vlib
 sys.path.insert(0, os.path.join(vlib.VERIF, "tools"))
 import gen_c18_flags  # noqa: E402
+import gen_c18_events  # noqa: E402
 
 LEVEL = "proof"
 MANIFEST = dict(
@@ -53,6 +55,14 @@ MANIFEST = dict(
          "sequences are also compared with the model scanning with the flag set), CFLAGS VBLANK set and cleared again or XMP_PLAYER_FLAGS VBLANK "
          "before the load, one XMP_PLAYER_MODE (1..10), and XMP_PLAYER_VOICES 1 / 2 / 4 (IT modules: notes on the events that carry the flow "
          "effects, one voice always); failures carry the configuration in the signature (oracle:<kind>:<fmt>:<cfg>, e.g. oracle:duration:it:voices1). "
+         "In 60% of the modules (all four formats, each with one looped sample) the events that carry the flow effects also carry a note, a "
+         "key-off (XM 97, S3M ^^, IT ===), an IT note cut or note fade, with and without an instrument number, on a channel above one that "
+         "sounds on the same row; the voice configurations are 1 voice (always), one of 2/3/4, and 1 or 2 voices under another read_event "
+         "flavour (XMP_PLAYER_MODE MOD / FT2 / ST3 / IT): the flow effect of an event must act whatever its note column holds and whether or not "
+         "its note gets a voice; C18_events_keep_effects proves over facts regenerated from read_event.c / player.c (tools/gen_c18_events.py) "
+         "that no event reader returns before libxmp_process_fx (except FT2's late-note rule) and that read_row strips nothing but a note delay. "
+         "Not reached: read_event_med and read_event_smix at run time (no MED module / smix channel among the four formats; covered by the "
+         "translator fact only). "
          "Fxx (FX_SPEED) reaches the model undecoded (RawMod): C18_scan_eq_play_flags states the property for either value of the VBlank flag read "
          "by BOTH sides, C18_flag_mismatch_breaks shows it fails otherwise, and C18_flag_word_same proves over facts regenerated from the C "
          "(tools/gen_c18_flags.py) that scan.c and effects.c test the flag through the same word p->flags with the same disjuncts. "
@@ -79,6 +89,7 @@ REQUIRED = ["Xmp.LinFlow.C18_tick_exact", "Xmp.LinFlow.C18_row_accounting", "Xmp
             "Xmp.LinFlow.C18_order_start_time", "Xmp.LinFlow.C18_scan_eq_play",
             "Xmp.LinFlow.C18_row_accounting_rowdelay", "Xmp.LinFlow.C18_row_guard_idle", "Xmp.LinFlow.C18_row_guard_idle_all",
             "Xmp.LinFlow.C18_flag_word_same", "Xmp.LinFlow.C18_scan_eq_play_flags", "Xmp.LinFlow.C18_flag_mismatch_breaks",
+            "Xmp.LinFlow.C18_events_keep_effects",
             "Xmp.LinFlow.C18_loop_count"]
 
 FORMATS = ("mod", "xm", "s3m", "it")
@@ -311,13 +322,43 @@ def gen_long_mod(rng):
 # module writers (independent of libxmp)
 # --------------------------------------------------------------------------
 
+NOTE_KINDS = {"mod": ["n"], "xm": ["n", "off"], "s3m": ["n", "off"], "it": ["n", "off", "cut", "fade"]}
+WAVE = bytes((i * 8) & 0xff for i in range(32))
+
+
+def deco(d, p, r):
+    """Decoration of the flow-effect event at pattern p, row r of a module with d["deco"] set: (note kind, instrument
+    number 0/1, companion).  Note kind: None, "n" (a note), "off" (key-off: XM 97, S3M ^^, IT ===), "cut" (IT ^^^),
+    "fade" (IT ~~~).  companion: a lower channel plays a note (looped sample) on the same row, and the effect sits on a
+    higher channel -- with fewer voices than sounding channels the effect's event loses the voice race.  The flow effect
+    of an event must act whatever its note column holds and whether or not its note gets a voice."""
+    seed = d.get("deco")
+    if seed is None:
+        return None
+    rng = random.Random(seed * 1000003 + p * 4099 + r)
+    x = rng.random()
+    if x < 0.4:
+        nk = "n"
+    elif x < 0.85:
+        nk = rng.choice(NOTE_KINDS[d["fmt"]])
+    else:
+        nk = None
+    ins = 1 if rng.random() < (0.85 if nk == "n" else 0.6) else 0
+    comp = d["chn"] >= 2 and rng.random() < 0.8
+    return nk, ins, comp
+
+
 def write_mod(d):
     chn = d["chn"]
     magic = {4: d.get("magic") or "M.K.", 6: "6CHN", 8: "8CHN"}[chn].encode()
+    dec = d.get("deco") is not None
     out = bytearray()
     out += b"c18 linear flow".ljust(20, b"\0")
     for i in range(31):
-        out += b"".ljust(22, b"\0") + struct.pack(">HBBHH", 0, 0, 64, 0, 1)
+        if dec and i == 0:
+            out += b"c18 tone".ljust(22, b"\0") + struct.pack(">HBBHH", len(WAVE) // 2, 0, 64, 0, len(WAVE) // 2)
+        else:
+            out += b"".ljust(22, b"\0") + struct.pack(">HBBHH", 0, 0, 64, 0, 1)
     orders = d["orders"]
     out += bytes([len(orders), d["rst"] & 0xff])
     npat = len(d["pats"])
@@ -334,13 +375,24 @@ def write_mod(d):
         rows = d["pats"][p] if p < npat else [None] * 64
         for r in range(64):
             ev = rows[r]
-            for c in range(chn):
-                if ev is not None and ev[2] == c:
-                    k, v, _ = ev
-                    prm = (0xe0 | v) if k == "d" else v
-                    out += bytes([0, 0, fxmap[k], prm])
+            cells = {}
+            if ev is not None:
+                k, v, c = ev
+                prm = (0xe0 | v) if k == "d" else v
+                dk = deco(d, p, r)
+                if dk is None:
+                    cells[c] = bytes([0, 0, fxmap[k], prm])
                 else:
-                    out += b"\0\0\0\0"
+                    nk, ins, comp = dk
+                    if comp:
+                        c = max(c, 1)
+                        cells[0] = bytes([0x00 | (428 >> 8), 428 & 0xff, 0x10, 0])         # C-2, sample 1
+                    per = 404 if nk == "n" else 0
+                    cells[c] = bytes([per >> 8, per & 0xff, (ins << 4) | fxmap[k], prm])
+            for c in range(chn):
+                out += cells.get(c, b"\0\0\0\0")
+    if dec:
+        out += bytes((b ^ 0x80) for b in WAVE)
     return bytes(out)
 
 
@@ -348,24 +400,50 @@ def write_xm(d):
     chn = d["chn"]
     orders = d["orders"]
     npat = len(d["pats"])
+    dec = d.get("deco") is not None
     out = bytearray()
     out += b"Extended Module: " + b"c18 linear flow".ljust(20, b" ") + b"\x1a" + b"FastTracker v2.00   "
     out += struct.pack("<H", 0x0104)
     out += struct.pack("<I", 20 + 256)
-    out += struct.pack("<HHHHHHHH", len(orders), d["rst"], chn, npat, 0, 1, d["spd"], d["bpm"])
+    out += struct.pack("<HHHHHHHH", len(orders), d["rst"], chn, npat, 1 if dec else 0, 1, d["spd"], d["bpm"])
     out += bytes(orders).ljust(256, b"\0")
     fxmap = {"s": 0x0f, "t": 0x0f, "j": 0x0b, "d": 0x0e}
-    for rows in d["pats"]:
+    for p, rows in enumerate(d["pats"]):
         data = bytearray()
-        for ev in rows:
-            for c in range(chn):
-                if ev is not None and ev[2] == c:
-                    k, v, _ = ev
-                    prm = (0xe0 | v) if k == "d" else v
-                    data += bytes([0x80 | 0x08 | 0x10, fxmap[k], prm])
+        for r, ev in enumerate(rows):
+            cells = {}
+            if ev is not None:
+                k, v, c = ev
+                prm = (0xe0 | v) if k == "d" else v
+                dk = deco(d, p, r)
+                if dk is None:
+                    cells[c] = bytes([0x80 | 0x08 | 0x10, fxmap[k], prm])
                 else:
-                    data += b"\x80"
+                    nk, ins, comp = dk
+                    if comp:
+                        c = max(c, 1)
+                        cells[0] = bytes([0x80 | 0x01 | 0x02, 49, 1])
+                    mask, body = 0x80 | 0x08 | 0x10, b""
+                    if nk is not None:
+                        mask |= 0x01
+                        body += bytes([97 if nk == "off" else 53])
+                    if ins:
+                        mask |= 0x02
+                        body += bytes([1])
+                    cells[c] = bytes([mask]) + body + bytes([fxmap[k], prm])
+            for c in range(chn):
+                data += cells.get(c, b"\x80")
         out += struct.pack("<IBHH", 9, 0, len(rows), len(data)) + data
+    if dec:
+        ih = struct.pack("<I", 263) + b"c18 tone".ljust(22, b"\0") + bytes([0]) + struct.pack("<H", 1) + struct.pack("<I", 40)
+        ih = ih.ljust(263, b"\0")
+        sh = struct.pack("<III", len(WAVE), 0, len(WAVE)) + bytes([64, 0, 1, 128, 0, 0]) + b"c18 tone".ljust(22, b"\0")
+        assert len(sh) == 40
+        delta, prev = bytearray(), 0
+        for b in WAVE:
+            delta.append((b - prev) & 0xff)
+            prev = b
+        out += ih + sh + bytes(delta)
     return bytes(out)
 
 
@@ -378,45 +456,69 @@ def write_s3m(d):
     if len(orders) % 2:
         orders.append(0xff)
     npat = len(d["pats"])
+    dec = d.get("deco") is not None
+    nins = 1 if dec else 0
     hdr = bytearray()
     hdr += b"c18 linear flow".ljust(28, b"\0") + b"\x1a" + bytes([16]) + b"\0\0"
-    hdr += struct.pack("<HHHHHH", len(orders), 0, npat, 0, 0x1320, 2)
+    hdr += struct.pack("<HHHHHH", len(orders), nins, npat, 0, 0x1320, 2)
     hdr += b"SCRM" + bytes([64, d["spd"], d["bpm"], 0xb0, 16, 0]) + b"\0" * 8 + struct.pack("<H", 0)
     hdr += bytes([(i if i < 8 else 0) if i < chn else 255 for i in range(32)])
     assert len(hdr) == 96
-    body_off = 96 + len(orders) + 2 * npat
+    body_off = 96 + len(orders) + 2 * nins + 2 * npat
     body_off = (body_off + 15) & ~15
-    blobs, ptrs, off = [], [], body_off
-    for rows in d["pats"]:
+    off = body_off
+    ins_blob, ins_ptr = b"", []
+    if dec:
+        ins_ptr = [off // 16]
+        data_para = (off + 80) // 16
+        ih = (bytes([1]) + b"c18.smp".ljust(12, b"\0") + bytes([(data_para >> 16) & 0xff]) + struct.pack("<H", data_para & 0xffff) +
+              struct.pack("<III", len(WAVE), 0, len(WAVE)) + bytes([64, 0, 0, 1]) + struct.pack("<I", 8363) + b"\0" * 12 +
+              b"c18 tone".ljust(28, b"\0") + b"SCRS")
+        assert len(ih) == 80
+        ins_blob = ih + bytes((b ^ 0x80) for b in WAVE)
+        ins_blob += b"\0" * ((-len(ins_blob)) % 16)
+        off += len(ins_blob)
+    blobs, ptrs = [], []
+    for p, rows in enumerate(d["pats"]):
         data = bytearray()
         for r in range(64):
             ev = rows[r]
             if ev is not None:
                 k, v, c = ev
                 prm = (0xe0 | v) if k == "d" else v
-                data += bytes([0x80 | c, S3M_CMD[k], prm])
+                dk = deco(d, p, r)
+                if dk is None:
+                    data += bytes([0x80 | c, S3M_CMD[k], prm])
+                else:
+                    nk, ins, comp = dk
+                    if comp:
+                        c = max(c, 1)
+                        data += bytes([0x20 | 0, 0x40, 1])                       # channel 1: C-4, instrument 1
+                    if nk is not None or ins:
+                        note = 0x44 if nk == "n" else 254 if nk == "off" else 255
+                        data += bytes([0x80 | 0x20 | c, note, ins, S3M_CMD[k], prm])
+                    else:
+                        data += bytes([0x80 | c, S3M_CMD[k], prm])
             data += b"\0"
         blob = struct.pack("<H", len(data) + 2) + data
         blob += b"\0" * ((-len(blob)) % 16)
         ptrs.append(off // 16)
         blobs.append(blob)
         off += len(blob)
-    out = bytes(hdr) + bytes(orders) + b"".join(struct.pack("<H", p) for p in ptrs)
-    out = out.ljust(body_off, b"\0") + b"".join(blobs)
+    out = bytes(hdr) + bytes(orders) + b"".join(struct.pack("<H", p) for p in ins_ptr) + b"".join(struct.pack("<H", p) for p in ptrs)
+    out = out.ljust(body_off, b"\0") + ins_blob + b"".join(blobs)
     return out, orders
 
 
 IT_CMD = {"s": 1, "j": 2, "d": 19, "r": 19, "t": 20}
+IT_NOTE = {"n": 64, "off": 255, "cut": 254, "fade": 253}
 
 
 def write_it(d):
-    """With d["notes"]: one looped sample, and every flow effect sits on an event that also plays a note, on a channel
-    above one that plays a note in the same row: with XMP_PLAYER_VOICES 1 that event's note finds no voice -- its
-    effects must still run (read_event_it)."""
     orders = d["orders"]
     npat = len(d["pats"])
-    notes = bool(d.get("notes"))
-    nsmp = 1 if notes else 0
+    dec = d.get("deco") is not None
+    nsmp = 1 if dec else 0
     hdr = bytearray()
     hdr += b"IMPM" + b"c18 linear flow".ljust(26, b"\0") + b"\x04\x10"
     hdr += struct.pack("<HHHH", len(orders), 0, nsmp, npat)
@@ -427,32 +529,41 @@ def write_it(d):
     off = 192 + len(orders) + 4 * nsmp + 4 * npat
     smp_hdr_off = off
     smp = b""
-    if notes:
-        wave = bytes((i * 8) & 0xff for i in range(32))
+    if dec:
         smp = (b"IMPS" + b"c18.smp".ljust(12, b"\0") + bytes([0, 64, 0x01 | 0x10, 64]) + b"c18 tone".ljust(26, b"\0") +
-               bytes([1, 0]) + struct.pack("<IIIIIII", len(wave), 0, len(wave), 8363, 0, 0, off + 80) + bytes([0, 0, 0, 0]))
+               bytes([1, 0]) + struct.pack("<IIIIIII", len(WAVE), 0, len(WAVE), 8363, 0, 0, off + 80) + bytes([0, 0, 0, 0]))
         assert len(smp) == 80
-        smp += wave
+        smp += WAVE
         off += len(smp)
     blobs, ptrs = [], []
-    for rows in d["pats"]:
+    for p, rows in enumerate(d["pats"]):
         data = bytearray()
-        for ev in rows:
+        for r, ev in enumerate(rows):
             if ev is not None:
                 k, v, c = ev
                 prm = (0x60 | v) if k == "d" else (0xe0 | v) if k == "r" else v
-                if notes:
-                    c = max(c, 1)
-                    data += bytes([1 | 0x80, 0x03, 60, 1])                         # channel 1: note C-5, sample 1
-                    data += bytes([(c + 1) | 0x80, 0x0b, 64, 1, IT_CMD[k], prm])  # higher channel: note + the flow effect
-                else:
+                dk = deco(d, p, r)
+                if dk is None:
                     data += bytes([(c + 1) | 0x80, 0x08, IT_CMD[k], prm])
+                else:
+                    nk, ins, comp = dk
+                    if comp:
+                        c = max(c, 1)
+                        data += bytes([1 | 0x80, 0x03, 60, 1])                     # channel 1: note C-5, sample 1
+                    mask, body = 0x08, b""
+                    if nk is not None:
+                        mask |= 0x01
+                        body += bytes([IT_NOTE[nk]])
+                    if ins:
+                        mask |= 0x02
+                        body += bytes([1])
+                    data += bytes([(c + 1) | 0x80, mask]) + body + bytes([IT_CMD[k], prm])
             data += b"\0"
         blob = struct.pack("<HHI", len(data), len(rows), 0) + data
         ptrs.append(off)
         blobs.append(blob)
         off += len(blob)
-    return (bytes(hdr) + bytes(orders) + (struct.pack("<I", smp_hdr_off) if notes else b"") +
+    return (bytes(hdr) + bytes(orders) + (struct.pack("<I", smp_hdr_off) if dec else b"") +
             b"".join(struct.pack("<I", p) for p in ptrs) + smp + b"".join(blobs))
 
 
@@ -605,6 +716,11 @@ def loaded_matches_intended(d, exp_orders, model_in):
             # Fxx (FX_SPEED) is dumped undecoded: speed or tempo is decided by QUIRK_NOBPM / the VBlank flag / < 0x20
             exp = [e.replace(":t:", ":f:").replace(":s:", ":f:") for e in exp]
         got = pl[3:]
+        if got != exp and f == "mod" and d["rst"] == 0x78:
+            # restart byte 0x78 in a 4-channel MOD: the loader suspects Noisetracker, which has no Exy effects, and drops
+            # them pattern by pattern until it sees an effect Noisetracker cannot have (mod_load.c); scan and player both
+            # work on what was loaded
+            exp = [e for e in exp if ":d:" not in e or e in got]
         if got != exp:
             return "pattern %d effects: wrote %s loaded %s" % (p, exp[:8], got[:8])
     return None
@@ -682,6 +798,12 @@ def run(ck):
         ck.note("flag_word_reads", ["%s:%s" % r for r in info["reads"]])
     except Exception as e:      # the C no longer has the shape the translator reads: the model must be revisited
         ck.unproved("translator gen_c18_flags", str(e))
+    # translator: early returns of the event readers, rewrites of the effect fields in read_row (C18_events_keep_effects)
+    try:
+        info, _ = gen_c18_events.generate()
+        ck.note("event_reader_early_returns", ["%s:%s:%s" % r for r in info["early"]])
+    except Exception as e:
+        ck.unproved("translator gen_c18_events", str(e))
     ck.proofs(["XmpProps.C18"], required=REQUIRED, drivers=["drv_c18"])
     exe = vlib.build_harness("c18_duration", ["c18_duration.c"])
     quick = ck.tier == "quick"
@@ -700,8 +822,10 @@ def run(ck):
             d = gen_chain_mod(ck.rng, fmt)  # 20%: > 512 rows in orders chained by position jumps
         else:
             d = gen_module(ck.rng, fmt, big=(ck.rng.random() < 0.05))
-        if fmt == "it" and ck.rng.random() < 0.6:
-            d["notes"] = True               # notes on the effect events: small XMP_PLAYER_VOICES must not change the timeline
+        if ck.rng.random() < 0.6:
+            # notes / key-offs / cuts / fades with and without instrument on the events that carry the flow effects, a lower
+            # channel sounding on the same row: neither the note column nor a lost voice race may change the timeline
+            d["deco"] = ck.rng.getrandbits(30)
         data, exp_orders = write_module(d)
         path = os.path.join(wd, "m%05d.%s" % (i, fmt))
         with open(path, "wb") as f:
@@ -812,7 +936,7 @@ def run(ck):
             stats["invalid_orders"] += 1 if any(o >= len(d["pats"]) + (1 if fmt == "xm" else 0) and o < 0xfe for o in exp_orders) else 0
             stats["restart_nonzero"] += 1 if c["model_in"][0].split()[2] != "0" else 0
             stats["one_row_patterns"] += 1 if any(len(r) == 1 for r in d["pats"]) else 0
-            stats["it_note_modules"] += 1 if d.get("notes") else 0
+            stats["it_note_modules"] += 1 if d.get("deco") is not None else 0
             if d.get("style") == "chain":
                 stats["chain_modules"] += 1
                 stats["chain_rows_max"] = max(stats["chain_rows_max"], sum(len(d["pats"][o]) for o in d["orders"] if o < len(d["pats"])))
